@@ -10,6 +10,7 @@ THEOREMS = [
     "XcmModel.C10.C10_overflow_reported", "XcmModel.C10.C10_fits_returned",
     "XcmModel.C10.C10_set_rejects_without_effect", "XcmModel.C10.C10_names_total",
     "XcmModel.FuncsTie.valid_set_attr_len_tie",
+    "XcmModel.FuncsTie.is_special_tie",
 ]
 
 CAP_APIS = ["get", "get_notype", "getf", "str", "bin", "getf_str", "getf_bin"]
